@@ -181,7 +181,7 @@ fn fence_acq(execution: &mut Execution) {
     for state in execution.objects.iter_mut::<State>() {
         // Iterate all the stores
         for store in state.stores_mut() {
-            if !store.first_seen.is_seen_by_current(&execution.threads) {
+            if !store.first_seen.is_seen_by_active(&execution.threads) {
                 continue;
             }
 
@@ -886,6 +886,13 @@ impl FirstSeen {
         }
 
         false
+    }
+
+    /// Returns `true` if the active thread itself has read (or written) the
+    /// store. Unlike `is_seen_by_current`, accesses by other threads in the
+    /// active thread's causality do not count.
+    fn is_seen_by_active(&self, threads: &thread::Set) -> bool {
+        self.0[threads.active_id().as_usize()] != u16::MAX
     }
 
     fn is_seen_before_yield(&self, threads: &thread::Set) -> bool {
